@@ -300,7 +300,7 @@ func checkCase(c Case, e *env.Env) (*hx.Violation, info) {
 			}
 			if a.pubMS == b.pubMS && !same {
 				kind := "same-publishtime-different-content"
-				if bytes.Equal(stripWindow(a.body), stripWindow(b.body)) && a.lastT == b.lastT && a.firstT != b.firstT && c.Periods == 0 {
+				if bytes.Equal(stripWindow(a.body), stripWindow(b.body)) && a.lastT == b.lastT && c.Periods == 0 && onlyLeadingRemoved(a.m, b.m) {
 					// defect model: the only difference is the removal of leading SegmentTimeline entries (window start moved)
 					kind = "KF-C05-window-removal"
 				} else if c.Periods > 0 && a.lastT == b.lastT && a.lastPer == b.lastPer && (a.firstPer != b.firstPer || a.firstT != b.firstT) {
@@ -319,6 +319,45 @@ func checkCase(c Case, e *env.Env) (*hx.Violation, info) {
 		}
 	}
 	return nil, inf
+}
+
+// onlyLeadingRemoved is the document side of the defect model KF-C05-window-removal for single-period MPDs: in every
+// adaptation set the declared segments of one document are a suffix of those of the other (same numbers, times and
+// durations), and at least one set lost leading entries. (The sets may lose them at slightly different instants:
+// their timescales round the window start differently.)
+func onlyLeadingRemoved(a, b *mpdx.MPD) bool {
+	if len(a.Periods) != 1 || len(b.Periods) != 1 || len(a.Periods[0].AS) != len(b.Periods[0].AS) {
+		return false
+	}
+	differs := false
+	for i := range a.Periods[0].AS {
+		ta, tb := a.Periods[0].AS[i].Tmpl, b.Periods[0].AS[i].Tmpl
+		if ta == nil || tb == nil {
+			if ta != tb {
+				return false
+			}
+			continue
+		}
+		da, err1 := ta.Expand()
+		db, err2 := tb.Expand()
+		if err1 != nil || err2 != nil {
+			return false
+		}
+		if len(da) < len(db) {
+			da, db = db, da
+		}
+		off := len(da) - len(db)
+		for k := range db {
+			x, y := da[off+k], db[k]
+			if x.T != y.T || x.D != y.D || (ta.StartNumber != nil && tb.StartNumber != nil && x.Nr != y.Nr) {
+				return false
+			}
+		}
+		if off > 0 {
+			differs = true
+		}
+	}
+	return differs
 }
 
 func max64(a, b int64) int64 {
